@@ -62,6 +62,10 @@ class Stage:
             elif p.startswith('std::collections::HashSet::<') and re.search(r'HashSet<u32\b', a0ty):
                 m = p.split('::')[-1]
                 self.add(blk.i, 'LCS_' + m.upper())
+            elif self.F.get(p) is not None and self.F.get(p).kind != 'closure' and any(re.search(r'&mut std::collections::HashSet<u32\b', a.ty or '') for a in args) and \
+                    any(x.term.callee.path.startswith('std::collections::HashSet::<') and x.term.callee.path.endswith('::insert') for x in self.F.get(p).calls()):
+                # private helper that registers a lifecycle as unconfirmed (`register_buffered_lc(lc, &mut buffered_lcs, ..)`)
+                self.add(blk.i, 'LCS_INSERT')
             elif p == 'adlt::lifecycle::Lifecycle::merge':
                 self.add(blk.i, 'MERGE')
             elif p == 'adlt::lifecycle::Lifecycle::update':
